@@ -89,6 +89,8 @@ class Model:
         self.rep = 'A'
         self.okrep = 'A'
         self.dead_seqs = set()
+        self.deferred = {}           # k -> operation that a side effect in mode 6 will carry out (once)
+        self.illegal = None          # set when a deferred operation cannot be carried out in the state it meets
         self.husks = set()           # ids of sequence objects that were moved from (only destruction / assignment is legal)
         self.tomb = -1               # next id for a dead sequence whose wrapper id is being reused by an assignment
 
@@ -165,6 +167,24 @@ class Model:
         getattr(self, 'op_' + op[0])(pred, *op[1:])
         self.snapshot_flags(pred)
         return pred
+
+    def op_defer(self, pred, k, *op):
+        self.deferred[k] = tuple(op)
+
+    def deferred_executable(self, dop, handler):
+        """can this deferred operation be carried out right now, from inside a side effect of `handler`?"""
+        if dop[0] == 'rmexp':
+            x = self.exps.get(dop[1])
+            return x is not None and x.id != handler.id
+        if dop[0] == 'exp':
+            _, e, shape, slot, o, params = dop
+            if e in self.exps or o not in self.objs:
+                return False
+            s = self.shapes[shape]
+            if any(params.get('s%d' % j) not in self.seqs for j in range(s['nq'])):
+                return False
+            return True
+        return False
 
     def op_obj(self, pred, o, kind):
         ob = Obj()
@@ -581,6 +601,15 @@ class Model:
                 if mode == 4 and s['fn'] == 'r':
                     a0 = 77 + i            # written through the reference parameter: later clauses and the caller see it
                     pred.trig.add('write_through_param')
+                if mode == 6:
+                    # re-entrancy: the side effect releases another expectation or creates a new one (once)
+                    dop = self.deferred.pop(e.p.get('dop'), None)
+                    if dop is not None:
+                        if not self.deferred_executable(dop, e):
+                            self.illegal = 'deferred %s not executable' % (dop[0],)
+                        else:
+                            getattr(self, 'op_' + dop[0])(pred, *dop[1:])
+                            pred.trig.add('side_effect_releases_expectation' if dop[0] == 'rmexp' else 'side_effect_creates_expectation')
                 if mode == 5:
                     # the side effect destroys an object - the mock whose function is executing, or the husk it was
                     # moved from: everything a destruction does happens now, inside the call (non-fatal reports),
@@ -658,6 +687,8 @@ class Model:
         m.rep, m.okrep = self.rep, self.okrep
         m.dead_seqs = set(self.dead_seqs)
         m.husks = set(self.husks)
+        m.deferred = dict(self.deferred)
+        m.illegal = self.illegal
         m.tomb = self.tomb
         return m
 
@@ -745,6 +776,8 @@ class Model:
 
 def op_to_line(op):
     k = op[0]
+    if k == 'defer':
+        return 'defer %d %s' % (op[1], op_to_line(tuple(op[2:])))
     if k == 'exp':
         _, e, shape, slot, o, params = op
         kv = ' '.join('%s=%d' % (a, b) for a, b in sorted(params.items()))
